@@ -516,7 +516,8 @@ def hSelectNodes (inp out : Json) : Except String Findings := do
            | some sel => (labelSelectorMatches sel n.labels).getD true
            | none => true))
       let cleaned := current.filter (fun nm => !listedInvalid nm)
-      let fs := match selectNodes rs.template c base cleaned pods nodes with
+      let fs := if !decide current.Nodup then fs else
+        match selectNodes rs.template c base cleaned pods nodes with
         | .ok (m2, short2) =>
           spec fs "C15.invalid-previous-irrelevant" (sortStrs res == sortStrs m2 && err == short2)
         | _ => fs
